@@ -15,6 +15,7 @@ import (
 	"net"
 	"net/rpc"
 	"os"
+	"os/signal"
 	"sort"
 	"strconv"
 	"strings"
@@ -693,6 +694,10 @@ func pluginMain(specJSON string) {
 	spec.fill()
 	if spec.IgnoreClientCert {
 		os.Unsetenv("PLUGIN_CLIENT_CERT")
+	}
+	if spec.After.Mode == "never" {
+		// a plugin that does not go away by itself does not go away on a polite signal either
+		signal.Ignore(syscall.SIGTERM, syscall.SIGHUP)
 	}
 	if spec.StartMarker != "" {
 		appendLine(spec.StartMarker, fmt.Sprintf("start %d", os.Getpid()))
